@@ -190,6 +190,7 @@ bool Units::UnitsImpl::performTestWithHistory(History &history, std::vector<cons
         unitsOnPath.push_back(mUnits);
         bool result = importedUnits->pFunc()->performTestWithHistory(history, unitsOnPath, importedUnits, type);
         unitsOnPath.pop_back();
+        history.pop_back();
 
         return result;
     }
